@@ -255,10 +255,14 @@ class Session:
             if keep is not None:
                 for p, q in zip(self.plist(), keep):
                     p.data.copy_(q)
-        if hasattr(out, "tensor"):
-            out = out.tensor()
-        r = out if self.tgt is None else out - self.tgt
-        rows = r.detach().double().reshape(-1, r.shape[-1]).tolist()
+        outs = list(out) if isinstance(out, (tuple, list)) else [out]       # a model may return several residual tensors
+        tgts = list(self.tgt) if isinstance(self.tgt, (tuple, list)) else [self.tgt] * len(outs)
+        rows = []
+        for o, tg in zip(outs, tgts):
+            if hasattr(o, "tensor"):
+                o = o.tensor()
+            r = o if tg is None else o - tg
+            rows += r.detach().double().reshape(-1, r.shape[-1]).tolist()
         tot = []
         for row in rows:
             x = math.fsum(v * v for v in row)
@@ -549,8 +553,24 @@ def float_model(kind, rng, seed, ms=None):
               "sat": lambda: dict(w0=[rng.uniform(3, 12) * rng.choice([-1, 1]), rng.uniform(-6, 6)]),
               "expfit": lambda: dict(w0=[rng.uniform(0.1, 8), rng.uniform(-3, 3)]),
               "himmelf": lambda: dict(x0=[rng.uniform(-9, 9), rng.uniform(-9, 9)]),
+              "multi": lambda: dict(x0=[rng.uniform(-6, 6), rng.uniform(-6, 6)]),
               "prior": lambda: dict(x0=[rng.uniform(-9, 9) for _ in range(3)], view=rng.random() < 0.5),
               "pose": lambda: dict(sig=rng.choice([0.5, 2.0]), seed=seed)}[kind]()
+    if kind == "multi":
+        # two residual outputs of different size, one (default / shared) kernel for both
+        x0 = ms["x0"]
+
+        class Multi(torch.nn.Module):
+            def __init__(self):
+                super().__init__()
+                self.p = torch.nn.Parameter(torch.tensor(x0, dtype=f64))
+
+            def forward(self, inp):
+                x, y = self.p[0], self.p[1]
+                return torch.stack([x * x + y - 11, x + y * y - 7]).unsqueeze(-1), \
+                    torch.stack([3 * (x - y), x * y - 2, x + 2 * y]).view(1, 3)
+
+        return Multi(), torch.zeros(1, dtype=f64), None, "two residual outputs from %s" % x0, ms
     if kind == "prior":
         # min |x|^2: the model output IS the parameter (or a view of it) - a residual tensor kept by the optimizer across the
         # parameter update must not alias it
@@ -791,7 +811,7 @@ def run_float(ctx, algo, kind, strat, R, h, th, modes, ncalls, seed, kernel=Fals
 def float_traces(ctx, n):
     rng = ctx.rng
     traces = []
-    kinds = ["sat", "rosen", "expfit", "himmelf", "pose", "prior"]
+    kinds = ["sat", "rosen", "expfit", "himmelf", "pose", "prior", "multi"]
     hyp = dict(u=1, w0=1, f=1, minE=-24, maxE=24, d0=-20)       # tiny damping: genuine rejections
     hyp2 = dict(u=2, w0=1, f=1, minE=-30, maxE=10, d0=-12)
     for i in range(n):
